@@ -4,10 +4,11 @@ Equivalence with a reference map over all histories is a statement about run-tim
 conjunction of the structural clauses the equivalence depends on: two clauses of its own (which error kind each operation can report; the
 insertion counter moves exactly on the not-found arm of the tree search) and the clauses of the tree / overlay / iteration / reuse
 properties (C05-C08, C10, C15) it is built on, under C01's name."""
-from core import ok, bad, unresolved, floor, R
+from core import ok, bad, unresolved, floor, R, renamed
 from anchors import AnchorError
 from facts import callee_of, op_local, op_place, last_seg, strip_generics
-from reach import reach_specialised
+from reach import reach_specialised, pruned_blocks
+from util import stores_to_field, calls_named
 import c05, c06, c07, c08, c02
 
 # which error kinds each operation must be able to report, and which it must never report (reference semantics of a nested ordered map, README / docs):
@@ -73,11 +74,19 @@ def counter(ctx, rule='C01.counter'):
     if sr is None:
         return [unresolved(rule, 'search role')]
     n = 0
-    for fn in sorted(F.fns, key=lambda f: f.path):
-        if fn.kind == 'Closure':
-            continue
+    # a bump written in a private helper is judged where the helper is folded into its callers (the not-found test sits in the caller); only what no view covers is
+    # judged as it stands
+    keep = ctx.keep_set()
+    order = [(f, ctx.x(f)) for f in sorted(F.fns, key=lambda f: f.path) if f.kind != 'Closure' and f in keep] + \
+            [(f, f) for f in sorted(F.fns, key=lambda f: f.path) if f.kind != 'Closure' and f not in keep]
+    covered = set()
+    for raw, fn in order:
         du = None
         for bb in sorted(fn.reachable_blocks()):
+            if fn is raw and raw not in keep and ctx.origin(fn, bb) in covered:
+                continue
+            if fn is not raw or raw in keep:
+                covered.add(ctx.origin(fn, bb))
             for si, st in enumerate(fn.blocks[bb]['stmts']):
                 if st['k'] != 'assign':
                     continue
@@ -120,7 +129,7 @@ def counter(ctx, rule='C01.counter'):
                     from guards import resolve_bool
                     tg = dict((v, x) for v, x in at['targets'])
                     zero = tg.get(0, at['otherwise'])
-                    on_zero = bb in fn.reach_from([zero]) and (bb not in fn.reach_from([at['otherwise']]) if 0 in tg else True)
+                    on_zero = bb in fn.reach_from([zero], avoid={a}) and (bb not in fn.reach_from([at['otherwise']], avoid={a}) if 0 in tg else True)      # within one pass of an enclosing loop
                     inv = _negated(fn, du, at['discr'])
                     if (on_zero and not inv) or (not on_zero and inv):
                         guarded = True
@@ -131,6 +140,220 @@ def counter(ctx, rule='C01.counter'):
                                    'BucketMeta.next_int is incremented at %s on a path that is not the not-found arm of the tree search: overwriting an existing key (or opening an '
                                    'existing bucket) would move the insertion counter' % fn.loc(bb, si), where=fn.loc(bb, si)))
     f = floor(rule, 'increments of the insertion counter', n, 2)
+    if f:
+        res.append(f)
+    return res
+
+
+def _found_arm_successes(ctx, F, g, blocks, sr, mode_params=()):
+    """[(test block, success-return blocks reachable from the found arm)] for the tests of the search's exact-match flag in g, restricted to the live blocks.
+    A path that passes a test derived from one of the mode parameters which the constant specialisation could NOT decide (both sides live: `mode == Mode::Create`
+    through a derived `eq` on a promoted constant) is not counted: it is undecided, not a violation."""
+    import c03
+    calls = [(b2, t2) for b2, t2, c2 in _calls_to(F, g, sr) if b2 in blocks]
+    if not calls:
+        return None
+    du = ctx.du(g)
+    flag_locals = set()
+    for cb, ct in calls:
+        d = ct['dest']['l']
+        for b3 in g.reachable_blocks():
+            for s3 in g.blocks[b3]['stmts']:
+                if s3['k'] == 'assign' and s3['rv']['k'] == 'use':
+                    pl = op_place(s3['rv']['op'])
+                    if pl is not None and pl['l'] == d and pl['pr'] and pl['pr'][0]['k'] == 'field' and str(pl['pr'][0].get('name')) == '0':
+                        flag_locals.add(s3['p']['l'])
+    oks = set(c03.ok_return_blocks(g, blocks))
+    out = []
+    dead = set(g.reachable_blocks()) - set(blocks)
+    undecided = set()
+    if mode_params:
+        for a in sorted(blocks):
+            at = g.term(a)
+            if at['k'] != 'switch' or len([x for x in g.succ(a) if x in blocks and not g.blocks[x]['cleanup']]) < 2:
+                continue
+            locs, atoms = du.slice_operand(at['discr'])
+            if (locs & set(mode_params)) or any(x[0] == 'arg' and x[1] in mode_params for x in atoms):
+                if not (locs & flag_locals):
+                    undecided.add(a)
+    dead = dead | undecided
+    for a in sorted(blocks):
+        at = g.term(a)
+        if at['k'] != 'switch':
+            continue
+        locs, _ = du.slice_operand(at['discr'])
+        if not (locs & flag_locals):
+            continue
+        tg = dict((v, x) for v, x in at['targets'])
+        if 0 not in tg:
+            continue
+        inv = _negated(g, du, at['discr'])
+        found = tg[0] if inv else at['otherwise']
+        out.append((a, g.reach_from([found], avoid=dead | {a}) & oks))
+    return out
+
+
+def create_refuses_existing(ctx, rule='C01.create-refuses-existing'):
+    """create_bucket on a name the tree search FINDS never returns success: with the mode parameters specialised to what create_bucket passes, no success return is
+    reachable from the found arm of the search (the reference map reports BucketExists / IncompatibleValue there)"""
+    res = []
+    F = ctx.facts
+    sr = c07._search_role(ctx)
+    if sr is None:
+        return [unresolved(rule, 'search role')]
+    n = 0
+    for m in sorted(F.fns, key=lambda f: f.path):
+        if m.kind == 'Closure' or not m.eff_pub or m.trait or m.name != 'create_bucket':
+            continue
+        st = m.self_adt and last_seg(m.self_adt)
+        if st not in ('Tx', 'Bucket'):
+            continue
+        live = {}
+        prunes = {}
+        reach_specialised(F, m, live_out=live, prune_out=prunes)
+        for g0, blocks0 in sorted(live.items(), key=lambda kv: kv[0].path):
+            if not g0.locals[0]['ty'].startswith('std::result::Result<'):
+                continue
+            # two sound over-approximations of what is reachable; either may prove the clause: the function as written (mode helpers such as `mode.must_create()` are
+            # evaluated as calls on constants), and the function with its private helpers folded in (a found arm that hands the rest to a helper is still the found arm)
+            mode_params = sorted({k for pr in prunes.get(g0, []) for k in pr})
+            raw = _found_arm_successes(ctx, F, g0, blocks0, sr, mode_params)
+            if raw is None:
+                continue
+            verdicts = [('as written', g0, raw)]
+            if any(hit for a, hit in raw):
+                g = ctx.x(g0)
+                blocks = set()
+                for pr in prunes.get(g0, [{}]):
+                    blocks |= set(pruned_blocks(g, pr, F))
+                fx = _found_arm_successes(ctx, F, g, blocks, sr, mode_params)
+                if fx is not None:
+                    verdicts.append(('helpers folded', g, fx))
+            proved = [v for v in verdicts if v[2] and not any(hit for a, hit in v[2])]
+            n += len(verdicts[0][2])
+            if proved:
+                how, g, lst = proved[0]
+                res.append(ok(rule, '%s via %s (%s): no success return on the found arm of the search (test at %s)' % (m.qual, g0.qual, how, ', '.join(g.loc(a) for a, _ in lst)), sites=len(lst)))
+            else:
+                how, g, lst = verdicts[-1]
+                a, hit = [(a, hit) for a, hit in lst if hit][0]
+                res.append(bad(rule, '%s | success reachable from the found arm (via %s)' % (m.qual, g0.qual),
+                               '%s, specialised to what %s passes, can return success at %s on the arm where the tree search found the name (test at %s): creating a bucket that already '
+                               'exists must fail with BucketExists (IncompatibleValue if the name holds a value)' % (g0.qual, m.qual, g.loc(sorted(hit)[0]), g.loc(a)), where=g.loc(a)))
+    f = floor(rule, 'found-arm tests of the tree search under create_bucket', n, 2)
+    if f:
+        res.append(f)
+    return res
+
+
+def rebalance_gates(ctx, rule='C01.rebalance-gates'):
+    """the merge pass of commit (emptied and underfull nodes are merged or dropped before the tree is written) runs for every bucket the commit visits; if a flag
+    gates it, that flag is raised at EVERY site that takes an element out of a node -- a removal that leaves the flag down leaves an empty node in the tree, and
+    writing an empty node panics"""
+    from effects import effects_on, REMOVING
+    res = []
+    F = ctx.facts
+    try:
+        (rb,) = ctx.need('rebalance-role')
+    except AnchorError as e:
+        return [unresolved(rule, str(e))]
+    passes = [(bb, t, target) for bb, t, target, c in F.call_sites(rb)
+              if target is not None and target is not rb and target.self_adt and last_seg(target.self_adt) == 'InnerBucket' and target.kind != 'Closure'
+              and any('TxFreelist' in l['ty'] for l in target.locals[1:target.argc + 1])]
+    f = floor(rule, 'calls of the merge pass in the rebalance step', len(passes), 1)
+    if f:
+        return [f]
+    du = ctx.du(rb)
+    # element-removal primitives of Node, and the InnerBucket functions that use them
+    removers = [g for g in F.fns if g.self_adt and last_seg(g.self_adt) == 'Node' and g.kind != 'Closure' and (effects_on(F, g, 'Node', 'data') | effects_on(F, g, 'NodeData', '0')) & REMOVING]
+    users = []
+    for g in F.fns:
+        root = g
+        while root.kind == 'Closure' and root.owner is not None:
+            root = root.owner
+        if not (root.self_adt and last_seg(root.self_adt) == 'InnerBucket') or root is rb or root in [p[2] for p in passes]:
+            continue
+        if any(target in removers for bb, t, target, c in F.call_sites(g) if target is not None):
+            if root not in users:
+                users.append(root)
+    for bb, t, target in passes:
+        flags = set()
+        for (a, sx) in rb.control_deps_transitive(bb):
+            at = rb.term(a)
+            if at['k'] != 'switch':
+                continue
+            _, da = du.slice_operand(at['discr'])
+            for x in da:
+                if x[0] == 'field' and x[1] and last_seg(x[1]) == 'InnerBucket':
+                    fld = [fl for fl in (F.adt_fields('InnerBucket') or []) if fl['name'] == x[2]]
+                    if fld and fld[0]['ty'] == 'bool':
+                        flags.add(x[2])
+        if not flags:
+            res.append(ok(rule, 'the merge pass %s at %s is not gated by any flag of the bucket' % (target.qual, rb.loc(bb)), sites=1))
+            continue
+        for fl in sorted(flags):
+            missing = []
+            for u in users:
+                sets = False
+                for g in [u] + [h for h in F.fns if h.kind == 'Closure' and h.owner is u]:
+                    for b2, si, st in stores_to_field(g, 'InnerBucket', fl):
+                        if st['rv']['k'] == 'use' and st['rv']['op']['k'] == 'const' and st['rv']['op']['c'].get('val') == 1:
+                            sets = True
+                if not sets:
+                    missing.append(u)
+            if missing:
+                res.append(bad(rule, '%s | merge pass gated by InnerBucket.%s, which %s does not raise' % (rb.qual, fl, ','.join(m.qual for m in missing)),
+                               'the merge pass (%s at %s) runs only when InnerBucket.%s is set, but %s takes elements out of nodes without setting it: a node it empties stays '
+                               'in the tree and the commit that writes it panics' % (target.qual, rb.loc(bb), fl, ', '.join(m.qual for m in missing)), where=rb.loc(bb)))
+            else:
+                res.append(ok(rule, 'the merge pass is gated by InnerBucket.%s, which all %d element-removing functions raise' % (fl, len(users)), sites=len(users)))
+    f = floor(rule, 'InnerBucket functions that remove elements from nodes', len(users), 1)
+    if f:
+        res.append(f)
+    return res
+
+
+def root_loaded(ctx, rule='C01.root-loaded'):
+    """the write-out of a bucket starts from the node of its root page (`page_node_ids[root_page]`, an indexing that panics when absent): whenever the rebalance
+    step moves the root to another page (root collapse), it materialises that page before it returns -- the page may be one the transaction never touched"""
+    res = []
+    F = ctx.facts
+    try:
+        rb, mat = ctx.need('rebalance-role', 'materialise')
+    except AnchorError as e:
+        return [unresolved(rule, str(e))]
+    sp = ctx.A.get('spill-role')
+    n = 0
+    for g in sorted(F.reachable_fns([rb]), key=lambda f: f.path):
+        if g is sp or g is mat or g.kind == 'Closure':
+            continue
+        if not (g.self_adt and last_seg(g.self_adt) == 'InnerBucket'):
+            continue
+        du = None
+        for bb, si, st in stores_to_field(g, 'BucketMeta', 'root_page'):
+            fs = [e for e in st['p']['pr'] if e['k'] == 'field']
+            if len(fs) < 2 or not fs[-2].get('adt') or last_seg(fs[-2]['adt']) != 'InnerBucket':
+                continue
+            if st['rv']['k'] != 'use':
+                continue
+            n += 1
+            du = du or ctx.du(g)
+            l1, _ = du.slice_operand(st['rv']['op'])
+            loads = set()
+            for cb, ct, cc in _calls_to(F, g, mat):
+                l2, _ = du.slice_operand(ct['args'][1]) if len(ct['args']) > 1 else (set(), None)
+                if {x for x in (l1 & l2) if x > g.argc} and cb in g.reach_from([bb]):
+                    loads.add(cb)
+            exits = [b for b in g.reachable_blocks() if g.term(b)['k'] in ('return', 'tailcall')]
+            free = g.reach_from([bb], avoid=loads)
+            if loads and not (set(exits) & free):
+                res.append(ok(rule, '%s: the page made root at %s is materialised (%s) on every path to the return' % (g.qual, g.loc(bb, si), ', '.join(g.loc(b) for b in sorted(loads))), sites=1))
+            else:
+                res.append(bad(rule, '%s | new root page not materialised' % g.qual,
+                               '%s moves the bucket\'s root to another page at %s and can return without materialising it (%s): the write-out indexes page_node_ids by the root '
+                               'page and panics when the transaction never touched that page' % (g.qual, g.loc(bb, si), 'no call of %s on that page id' % mat.qual if not loads else 'a path bypasses the call'),
+                               where=g.loc(bb, si)))
+    f = floor(rule, 'stores of the bucket root page in the rebalance step', n, 1)
     if f:
         res.append(f)
     return res
@@ -152,21 +375,20 @@ def _short(e, depth=0):
     return c16._fmt(e)
 
 
-def _renamed(results, frm):
-    """results of another property's rule functions under C01's name"""
-    out = []
-    for r in results:
-        nr = 'C01.' + r.rule.split('.', 1)[1] if r.rule.startswith(frm + '.') else r.rule
-        out.append(R(nr, r.ok, key=r.key.replace(r.rule, nr, 1), msg=r.msg, where=r.where, path=r.path, sites=r.sites, detail=r.detail))
-    return out
+def _renamed(results, frm, to='C01'):
+    return renamed(results, frm, to)
 
 
 def run(ctx, tier):
     results = []
     results += error_table(ctx)
     results += counter(ctx)
+    results += create_refuses_existing(ctx)
+    results += rebalance_gates(ctx)
+    results += root_loaded(ctx)
     # the clauses of the properties C01 is built on
     results += c07.exact_match_used(ctx, rule='C01.exact-match-used')
+    results += c07.position_from_search(ctx, rule='C01.position-from-search')
     results += c07.overlay_registered(ctx, rule='C01.overlay-registered')
     results += c07.overlay_first(ctx, rule='C01.overlay-first')
     results += c07.read_via_overlay(ctx, rule='C01.read-via-overlay')
@@ -188,10 +410,15 @@ def run(ctx, tier):
     results += c05.page_kinds(ctx, rule='C01.page-kinds')
     results += c05.run_length(ctx, rule='C01.run-length')
     results += c05.parent_links_refreshed(ctx, rule='C01.parent-links-refreshed')
+    results += c05.separator_refreshed(ctx, rule='C01.separator-refreshed')
     results += _renamed(c05.pointers(ctx), 'C05')
     results += c06.error_atomic(ctx, rule='C01.error-atomic')
     results += c06.guard(ctx, rule='C01.guard')
     results += c02.reload_rule(ctx, rule='C01.reload')
+    import c16
+    results += c16.grow(ctx, rule='C01.grow')
+    import profile
+    results += profile.debug_pure(ctx, 'C01.debug-pure')
     return dict(
         results=results, stats=dict(ctx.stats),
         explanation=(
